@@ -117,6 +117,12 @@ def check(ctx, h, r):
 
     key0 = {"op": r.op[0], "path": ep.shape_of_path(path), "wrapper": h.info.get("wrapper"),
             "family": family_of(names, before) if not depth else "none"}
+    if not depth:
+        mixed_roots = ep.attrpath_prefixes_of(before, "mixed")
+        if any(tuple(names[:k]) in mixed_roots for k in range(1, len(names) + 1)):
+            key0["mixed"] = True
+        if ep.quoted_identifier_segment(rest):
+            key0["quoted_ident"] = True
     tb = [t for t in toks(before)]
     ta = [t for t in toks(out)]
     if depth:
